@@ -177,6 +177,35 @@ def handle (op : String) (args : List PyVal) : Option (List PyVal) :=
     let vdt ← NpDType.ofName v
     let ddt ← NpDType.ofName d
     pure [.str (Gen.Encodings.sparseResultDType vdt ddt).name]
+  -- the session of the map clause on one column object, on the heap model (`Enc.session`): expand, apply `f` to the
+  -- stored values in place, read the first expansion again, expand again -- with the origin of the expansion as
+  -- read off the source (`Gen.Encodings.*MaterializeOrigin`) and the translated `materialize` as the decoder.
+  -- Answer: [first expansion as it reads at the end, second expansion]
+  | "session", [.str enc, .str f, .list xs, .int n] => do
+    if n < 0 then none
+    let g : PyVal → PyVal := fun v => (applyF f v).getD v
+    match enc with
+    | "rle" =>
+      let e := rleEncode (pyEq i2fNative) xs
+      let _ ← e.values.mapM (applyF f)
+      let r := session Gen.Encodings.rleMaterializeOrigin
+        (fun vs => (Gen.Encodings.rleMaterialize vs e.lengths).getD []) g ⟨[e.values.reverse, e.values]⟩ 1
+      pure [.list r.1, .list r.2]
+    | "dict" =>
+      if xs.any isNull && xs.length ≥ 2 then none
+      else
+        let e := dictEncode pyLe xs
+        let _ ← e.values.mapM (applyF f)
+        let r := session Gen.Encodings.dictMaterializeOrigin
+          (fun vs => (Gen.Encodings.dictMaterialize vs e.codes).getD []) g ⟨[e.values.reverse, e.values]⟩ 1
+        pure [.list r.1, .list r.2]
+    | "const" =>
+      let e := constEncode (xs.headD .none) n.toNat
+      let _ ← e.values.mapM (applyF f)
+      let r := session Gen.Encodings.constMaterializeOrigin
+        (fun vs => (Gen.Encodings.constMaterialize e.length vs).getD []) g ⟨[e.values.reverse, e.values]⟩ 1
+      pure [.list r.1, .list r.2]
+    | _ => none
   | "func", [v, .int n] => do
     if n < 0 then none
     let out := functionExpand (fun (_ : Unit) => v) () n.toNat
